@@ -248,6 +248,11 @@ def methodFor (methods : List Method) (rows : List (String × Nat × String)) (K
   | some nm => methods.find? (fun m => m.name == nm)
   | none => none
 
+/-- the Spec's own column lookup is unambiguous: every pair column is found under its own name, none is called "Sq" -/
+def specLookupOK (K : Nat) : Bool :=
+  (Spec.pairs K).all fun p =>
+    (colName p.1 p.2 != "Sq") && ((Spec.pairs K).find? (fun q => colName q.1 q.2 == colName p.1 p.2) == some p)
+
 /-- `p` holds of the method dispatched for K species (false when nothing is dispatched) -/
 def checkFor (methods : List Method) (rows : List (String × Nat × String)) (K : Nat) (p : Method → Bool) : Bool :=
   match methodFor methods rows K with
